@@ -1,6 +1,7 @@
 """
 C17 — an archive is unpacked and marked installed only if its SHA-256 matches.
-Correspondence: tools/kapture_download_dataset.py Dataset.install run against a scripted fake `requests` (truncation,
+Correspondence: a HISTORY of 1..3 invocations of tools/kapture_download_dataset.py Dataset.install on the same install
+directory (each invocation with fresh objects, as a new process would have, its own flags and its own server script), run against a scripted fake `requests` (truncation,
 corruption, extra bytes, ignored ranges, wrong/absent/garbled size headers, failures, different content per request) from
 every kind of prior local state, versus Model/C17.lean on the same script.  Compared: returned status / exception class,
 archive bytes left on disk, the installed marker, every untar_file call (with the archive bytes at that moment) and the
@@ -18,7 +19,9 @@ import tempfile
 ID = 'C17'
 TITLE = 'An archive is unpacked and marked installed only if its SHA-256 matches'
 GEN = []
-RULE = ('each case = prior local state (no archive / partial prefix / corrupt / oversized / complete good archive; marker or '
+RULE = ('each case = a history of 1..3 install invocations on one install directory (60% single invocations), each with its own '
+        'force / no_cleaning flags and server script, later invocations starting from whatever the earlier ones left on disk '
+        '(archive, marker, side files); first invocation from: prior local state (no archive / partial prefix / corrupt / oversized / complete good archive; marker or '
         'not) x force x no_cleaning x a script of 1..7 server behaviours composed from: correct bytes, truncation at any offset, '
         'corruption, extra trailing bytes, ignoring Range, wrong/absent/garbled size, connection failure, mid-stream abort, '
         'different content on a later request; thorough adds exhaustive scripts of length <=3 over a 9-behaviour alphabet. '
@@ -30,6 +33,7 @@ ASSUMPTIONS = [
     'the archive bytes (then runs for real on the good archive, which is a real tar.gz)',
     'Dataset.upgrade() after a successful install is outside this model (C20)',
     'install scripts (os.system) are not used by any indexed dataset and are outside the model',
+    'between two invocations of a history nothing else touches the install directory (local edits of a kept archive are outside)',
 ]
 TRUSTED = ['hashlib.sha256', 'file append/truncate semantics of open(.., "ab"/"wb")']
 
@@ -150,110 +154,133 @@ class FakeRequests:
         return FakeResponse(hdr, body, bool(step.get('abort')))
 
 
+def calls_of(case):
+    """ histories: case['calls']; older single-invocation cases (replays, seeds) carry force/noClean/script at top level """
+    if 'calls' in case:
+        return case['calls']
+    return [{'force': case['force'], 'noClean': case['noClean'], 'script': case['script']}]
+
+
 def run_real(case):
-    """ returns dict(result, archive(bytes|None), installed, extracted[list of bytes], log) """
+    """ returns one dict(result, archive(bytes|None), installed, extracted[list of bytes, cumulative], log, payload) per invocation """
     tool, dl = mods()
     base = tempfile.mkdtemp(prefix='c17_')
+    outs = []
     try:
         inst = os.path.join(base, 'install')
         os.makedirs(inst)
-        idir = tool.InstallDir(os.path.join(base, 'index.yaml'), inst)
-        ds = tool.Dataset('ds', idir, 'http://example.invalid/ds.tar.gz', hashlib.sha256(good()).hexdigest())
         apath = os.path.join(inst, 'ds.tar.gz')
         if case['prior']['archive'] is not None:
             with open(apath, 'wb') as f:
                 f.write(content_of(case['prior']['archive']))
         if case['prior']['installed']:
-            idir._mark_as_installed('ds', True)
-        fake = FakeRequests(case['script'])
+            tool.InstallDir(os.path.join(base, 'index.yaml'), inst)._mark_as_installed('ds', True)
         extracted = []
-        orig_requests, orig_untar = dl.requests, tool.untar_file
+        for call in calls_of(case):
+            # a new invocation of the tool: fresh objects, same directory
+            idir = tool.InstallDir(os.path.join(base, 'index.yaml'), inst)
+            ds = tool.Dataset('ds', idir, 'http://example.invalid/ds.tar.gz', hashlib.sha256(good()).hexdigest())
+            fake = FakeRequests(call['script'])
+            orig_requests, orig_untar = dl.requests, tool.untar_file
 
-        def spy_untar(archive_filepath, install_dirpath):
-            with open(archive_filepath, 'rb') as f:
-                extracted.append(f.read())
-            return orig_untar(archive_filepath, install_dirpath)
-        dl.requests = fake
-        tool.untar_file = spy_untar
-        try:
+            def spy_untar(archive_filepath, install_dirpath):
+                with open(archive_filepath, 'rb') as f:
+                    extracted.append(f.read())
+                return orig_untar(archive_filepath, install_dirpath)
+            dl.requests = fake
+            tool.untar_file = spy_untar
             try:
-                res = ds.install(force_overwrite=case['force'], no_cleaning=case['noClean'])
-            except ValueError:
-                res = 'error:ValueError'
-            except ConnectionError:
-                res = 'error:ConnectionError'
-            except Exception as e:
-                res = 'error:' + type(e).__name__
-        finally:
-            dl.requests = orig_requests
-            tool.untar_file = orig_untar
-        archive = open(apath, 'rb').read() if os.path.isfile(apath) else None
-        idir2 = tool.InstallDir(os.path.join(base, 'index.yaml'), inst)   # re-read the marker from disk
-        installed = idir2.is_installed('ds')
-        payload = os.path.isfile(os.path.join(inst, 'payload', 'readme.txt'))
-        return {'result': res, 'archive': archive, 'installed': installed, 'extracted': extracted, 'log': fake.log,
-                'payload': payload}
+                try:
+                    res = ds.install(force_overwrite=call['force'], no_cleaning=call['noClean'])
+                except ValueError:
+                    res = 'error:ValueError'
+                except ConnectionError:
+                    res = 'error:ConnectionError'
+                except Exception as e:
+                    res = 'error:' + type(e).__name__
+            finally:
+                dl.requests = orig_requests
+                tool.untar_file = orig_untar
+            archive = open(apath, 'rb').read() if os.path.isfile(apath) else None
+            idir2 = tool.InstallDir(os.path.join(base, 'index.yaml'), inst)   # re-read the marker from disk
+            installed = idir2.is_installed('ds')
+            payload = os.path.isfile(os.path.join(inst, 'payload', 'readme.txt'))
+            outs.append({'result': res, 'archive': archive, 'installed': installed, 'extracted': list(extracted),
+                         'log': fake.log, 'payload': payload})
+        return outs
     finally:
         shutil.rmtree(base, ignore_errors=True)
 
 
 def run_impl(case):
-    r = run_real(case)
-    return {'result': r['result'], 'archive': None if r['archive'] is None else list(r['archive']),
-            'installed': r['installed'], 'extracted': [list(b) for b in r['extracted']], 'log': r['log']}
+    return {'calls': [{'result': r['result'], 'archive': None if r['archive'] is None else list(r['archive']),
+                       'installed': r['installed'], 'extracted': [list(b) for b in r['extracted']], 'log': r['log']}
+                      for r in run_real(case)]}
+
+
+def model_script(script):
+    out = []
+    for s in script:
+        size = s.get('size')
+        out.append({'fail': bool(s.get('fail')), 'size': size, 'content': list(content_of(s.get('content', 'good'))),
+                    'honorRange': bool(s.get('honorRange')), 'cut': s.get('cut'), 'extra': list(s.get('extra', [])),
+                    'abort': bool(s.get('abort'))})
+    return out or [{'fail': True}]
 
 
 def to_model(case):
-    script = []
-    for s in case['script']:
-        size = s.get('size')
-        script.append({'fail': bool(s.get('fail')), 'size': size, 'content': list(content_of(s.get('content', 'good'))),
-                       'honorRange': bool(s.get('honorRange')), 'cut': s.get('cut'), 'extra': list(s.get('extra', [])),
-                       'abort': bool(s.get('abort'))})
-    if not script:
-        script = [{'fail': True}]
     prior = {'archive': None if case['prior']['archive'] is None else list(content_of(case['prior']['archive'])),
              'installed': case['prior']['installed']}
-    return [{'prior': prior, 'force': case['force'], 'noClean': case['noClean'], 'good': list(good()), 'script': script}]
+    return [{'prior': prior, 'good': list(good()),
+             'calls': [{'force': c['force'], 'noClean': c['noClean'], 'script': model_script(c['script'])} for c in calls_of(case)]}]
 
 
 def compare(case, io, mo):
     mo = mo[0]
-    if 'error' in mo:
+    if 'error' in mo or 'calls' not in mo:
         return f'model error {mo}'
-    for k in ('result', 'installed', 'log', 'extracted', 'archive'):
-        if io[k] != mo[k]:
-            a, b = io[k], mo[k]
-            if k in ('archive', 'extracted'):
-                a = 'bytes len %s' % (None if a is None else (len(a) if k == 'archive' else [len(x) for x in a]))
-                b = 'bytes len %s' % (None if b is None else (len(b) if k == 'archive' else [len(x) for x in b]))
-            return f'{k}: impl {a!r} model {b!r}'
+    if len(io['calls']) != len(mo['calls']):
+        return f'number of invocations: impl {len(io["calls"])} model {len(mo["calls"])}'
+    for i, (ic, mc) in enumerate(zip(io['calls'], mo['calls'])):
+        for k in ('result', 'installed', 'log', 'extracted', 'archive'):
+            if ic[k] != mc[k]:
+                a, b = ic[k], mc[k]
+                if k in ('archive', 'extracted'):
+                    a = 'bytes len %s' % (None if a is None else (len(a) if k == 'archive' else [len(x) for x in a]))
+                    b = 'bytes len %s' % (None if b is None else (len(b) if k == 'archive' else [len(x) for x in b]))
+                return f'invocation {i}: {k}: impl {a!r} model {b!r}'
     return None
 
 
 def oracle(case):
-    r = run_real(case)
+    outs = run_real(case)
     want = hashlib.sha256(good()).hexdigest()
-    for b in r['extracted']:
-        if hashlib.sha256(b).hexdigest() != want:
-            return {'signature': 'extracted-unverified', 'detail': f'untar_file was called on {len(b)} bytes whose sha256 '
-                    f'is not the published one (result {r["result"]}, requests {r["log"]})'}
-    if len(r['extracted']) > 1:
-        return {'signature': 'extracted-twice', 'detail': 'more than one extraction in one install'}
-    if r['installed']:
-        already = case['prior']['installed'] and not case['force']
-        if not r['extracted'] and not already:
+    marked_before = case['prior']['installed']
+    n_before = 0
+    for i, (call, r) in enumerate(zip(calls_of(case), outs)):
+        new = r['extracted'][n_before:]
+        tag = f'invocation {i}: '
+        for b in new:
+            if hashlib.sha256(b).hexdigest() != want:
+                return {'signature': 'extracted-unverified', 'detail': tag + f'untar_file was called on {len(b)} bytes whose '
+                        f'sha256 is not the published one (result {r["result"]}, requests {r["log"]})'}
+        if len(new) > 1:
+            return {'signature': 'extracted-twice', 'detail': tag + 'more than one extraction in one install'}
+        already = marked_before and not call['force']
+        if r['installed'] and not new and not already:
             return {'signature': 'marked-without-verified-extraction',
-                    'detail': f'marked installed although nothing was extracted (result {r["result"]}, requests {r["log"]})'}
-    if r['result'] != 'installed':
-        if r['extracted'] or r['installed'] or r['payload']:
-            return {'signature': 'failure-left-something', 'detail': f'result {r["result"]} but extracted={len(r["extracted"])} '
-                    f'installed={r["installed"]} payload={r["payload"]}'}
-    else:
-        already = case['prior']['installed'] and not case['force']
-        if not already and not (r['installed'] and r['extracted'] and r['payload']):
-            return {'signature': 'success-without-install', 'detail': f'reported installed but marker={r["installed"]} '
-                    f'extractions={len(r["extracted"])} payload={r["payload"]}'}
+                    'detail': tag + f'marked installed although nothing was extracted (result {r["result"]}, requests {r["log"]})'}
+        if r['result'] != 'installed':
+            # files of an EARLIER successful invocation legitimately stay on disk
+            if new or r['installed'] or (r['payload'] and n_before == 0):
+                return {'signature': 'failure-left-something', 'detail': tag + f'result {r["result"]} but extracted={len(new)} '
+                        f'installed={r["installed"]} payload={r["payload"]}'}
+        else:
+            if not already and not (r['installed'] and new and r['payload']):
+                return {'signature': 'success-without-install', 'detail': tag + f'reported installed but marker={r["installed"]} '
+                        f'extractions={len(new)} payload={r["payload"]}'}
+        marked_before = r['installed']
+        n_before = len(r['extracted'])
     return None
 
 
@@ -284,32 +311,61 @@ def priors(rng=None):
     return [None, 'empty', f'prefix:{k}', f'badprefix:{k}', 'bad', 'long', 'good', 'short']
 
 
-def gen_case(rng):
+def gen_call(rng):
     script = []
     for _ in range(rng.randint(1, 7)):
         script.append(dict(rng.choice(behaviours(rng))))
     if rng.random() < 0.5:
         # bias towards eventual success: end with honest behaviour
         script.append({'size': len(good()), 'content': 'good', 'honorRange': True})
-    return {'prior': {'archive': rng.choice(priors(rng)), 'installed': rng.random() < 0.2},
-            'force': rng.random() < 0.3, 'noClean': rng.random() < 0.5, 'script': script}
+    return {'force': rng.random() < 0.3, 'noClean': rng.random() < 0.5, 'script': script}
+
+
+def gen_case(rng):
+    n = 1 if rng.random() < 0.6 else rng.randint(2, 3)
+    calls = [gen_call(rng) for _ in range(n)]
+    if n > 1 and rng.random() < 0.5:
+        # a later forced re-install is what re-examines what an earlier invocation left behind
+        calls[-1]['force'] = True
+    return {'prior': {'archive': rng.choice(priors(rng)), 'installed': rng.random() < 0.2}, 'calls': calls}
 
 
 def cases(rng, tier):
     out = []
-    honest = {'size': len(good()), 'content': 'good', 'honorRange': True}
+    n_good = len(good())
+    honest = {'size': n_good, 'content': 'good', 'honorRange': True}
     for pa in priors():
         for inst in (False, True):
             for force in (False, True):
-                out.append({'prior': {'archive': pa, 'installed': inst}, 'force': force, 'noClean': False, 'script': [honest]})
+                out.append({'prior': {'archive': pa, 'installed': inst}, 'calls': [{'force': force, 'noClean': False, 'script': [honest]}]})
+    # histories: a verified first invocation (archive kept or cleaned), then a second one against a server that substitutes,
+    # corrupts, truncates or lengthens the content while announcing a consistent size; forced or not
+    second = [{'size': n_good, 'content': 'bad', 'honorRange': True}, {'size': n_good, 'content': 'bad2', 'honorRange': False},
+              {'size': n_good + 5, 'content': 'long', 'honorRange': True}, {'size': n_good, 'content': 'good', 'honorRange': True, 'cut': n_good // 2},
+              {'size': None, 'content': 'bad', 'honorRange': True}, {'fail': True}, honest]
+    for keep in (False, True):
+        for beh in second:
+            for force in (False, True):
+                out.append({'prior': {'archive': None, 'installed': False},
+                            'calls': [{'force': False, 'noClean': keep, 'script': [honest]},
+                                      {'force': force, 'noClean': keep, 'script': [beh]}]})
+                out.append({'prior': {'archive': None, 'installed': False},
+                            'calls': [{'force': False, 'noClean': keep, 'script': [honest]},
+                                      {'force': force, 'noClean': True, 'script': [beh]},
+                                      {'force': True, 'noClean': False, 'script': [beh, honest]}]})
+    # a failed first invocation, then a second one
+    for first in second[:5]:
+        for beh in second:
+            out.append({'prior': {'archive': None, 'installed': False},
+                        'calls': [{'force': False, 'noClean': True, 'script': [first]}, {'force': False, 'noClean': False, 'script': [beh]}]})
     if tier == 'thorough':
         import itertools
         beh = behaviours()[:9]
         for n in (1, 2, 3):
             for seq in itertools.product(range(len(beh)), repeat=n):
                 for pa in (None, f'prefix:{len(good()) // 2}', 'bad'):
-                    out.append({'prior': {'archive': pa, 'installed': False}, 'force': False, 'noClean': True,
-                                'script': [beh[i] for i in seq] + [honest]})
+                    out.append({'prior': {'archive': pa, 'installed': False},
+                                'calls': [{'force': False, 'noClean': True, 'script': [beh[i] for i in seq] + [honest]}]})
     n = 500 if tier == 'quick' else 6000
     for _ in range(n):
         out.append(gen_case(rng))
@@ -317,7 +373,8 @@ def cases(rng, tier):
 
 
 def nontrivial(case):
-    if case['prior']['installed'] and not case['force']:
+    cs = calls_of(case)
+    if len(cs) == 1 and case['prior']['installed'] and not cs[0]['force']:
         return None
     import json
     return json.dumps(case, sort_keys=True)
@@ -327,19 +384,36 @@ def distribution(cases_):
     d = {}
     for c in cases_:
         d['prior:' + str(c['prior']['archive']).split(':')[0]] = d.get('prior:' + str(c['prior']['archive']).split(':')[0], 0) + 1
-        d['len:%d' % len(c['script'])] = d.get('len:%d' % len(c['script']), 0) + 1
+        cs = calls_of(c)
+        d['invocations:%d' % len(cs)] = d.get('invocations:%d' % len(cs), 0) + 1
+        for call in cs:
+            d['len:%d' % len(call['script'])] = d.get('len:%d' % len(call['script']), 0) + 1
     return d
 
 
 def shrink(case, still_fails):
-    script = list(case['script'])
+    calls = [dict(c, script=list(c['script'])) for c in calls_of(case)]
+    base = {'prior': case['prior']}
     changed = True
-    while changed and len(script) > 1:
+    while changed:
         changed = False
-        for i in range(len(script) - 1, -1, -1):
-            cand = script[:i] + script[i + 1:]
-            if cand and still_fails(dict(case, script=cand)):
-                script = cand
-                changed = True
+        # drop whole invocations first, then script steps
+        for i in range(len(calls) - 1, -1, -1):
+            cand = calls[:i] + calls[i + 1:]
+            if cand and still_fails(dict(base, calls=cand)):
+                calls, changed = cand, True
                 break
-    return dict(case, script=script)
+        if changed:
+            continue
+        for ci, c in enumerate(calls):
+            for i in range(len(c['script']) - 1, -1, -1):
+                ns = c['script'][:i] + c['script'][i + 1:]
+                if not ns:
+                    continue
+                cand = calls[:ci] + [dict(c, script=ns)] + calls[ci + 1:]
+                if still_fails(dict(base, calls=cand)):
+                    calls, changed = cand, True
+                    break
+            if changed:
+                break
+    return dict(base, calls=calls)
